@@ -114,6 +114,9 @@ class SBool(Sym):
     def __rsub__(self, o):
         return lift(o) - self._as_int()
 
+    def __truediv__(self, o):       # True / x == 1 / x, False / x == 0 / x (python and numpy bools alike)
+        return self._as_int() / o
+
     def __int__(self):
         raise OutOfSubset('int() of symbolic bool')
 
@@ -236,6 +239,11 @@ class SNum(Sym):
         return SInt(a - b * q.t)
 
     def __pow__(self, o):
+        if isinstance(o, float) and o.is_integer() and 0 <= o <= 4:      # x ** 2. : defined for every base, value of x ** 2 as a float
+            r = SReal(z3.RealVal(1))
+            for _ in range(int(o)):
+                r = r * self
+            return r
         if isinstance(o, int) and 0 <= o <= 4:
             r = lift(1)
             for _ in range(o):
